@@ -69,9 +69,9 @@ def run(ctx):
         nq, par, conc, vals = gen_hier(r)
         ps, cs = ",".join(map(str, par)), ",".join(map(str, conc))
         for _ in range(6):
-            q, k, path = r.below(nq), r.below(4), r.below(7)
+            q, k, path = r.below(nq), r.below(4), r.below(9)
             ctxq = ""
-            if r.chance(1, 4):
+            if r.chance(1, 4) or (path == 8 and r.chance(1, 2)):
                 c = r.below(nq)
                 if not set(chain(par, c)) & set(chain(par, q)):
                     ctxq = " %d" % c
